@@ -134,7 +134,7 @@ class DiagnosticPlot:
         # If warranted, show the legend for the different ceilometers
         if show_ceilos:
             # Create by hand the legend handles
-            elmts = [Line2D([0], [0], ls='', marker='o', color=ceilo_clrs[ind],
+            elmts = [Line2D([0], [0], ls='', marker='o', color=ceilo_clrs[ind % len(ceilo_clrs)],
                             label=texify(item), markersize=10)
                      for (ind, item) in enumerate(self._chunk.ceilos)]
 
